@@ -88,11 +88,27 @@ def build_harness():
 
 
 def build_lean(targets=None):
-    """lake build of the library and the replay driver.  Returns (ok, output)."""
+    """Regenerate Gen/*.lean from /repo's current sources, then lake build of the library and the replay
+    driver.  Returns (ok, output)."""
     with Lock("lean"):
+        try:
+            import gen_tables
+            gen_tables.generate(REPO, LEAN)
+        except Exception as ex:   # a source the extractor cannot read: the tie modules will then fail to build
+            sys.stderr.write("gen_tables: %s\n" % ex)
         cmd = ["lake", "build"] + (targets or ["NsyncVerif", "replay"])
         r = sh(cmd, cwd=LEAN)
         return r.returncode == 0, r.stdout + r.stderr
+
+
+def build_tie(modules):
+    """Build the tie-lemma modules (they import the regenerated tables); returns {module: (ok, output)}."""
+    res = {}
+    with Lock("lean"):
+        for m in modules:
+            r = sh(["lake", "build", m], cwd=LEAN)
+            res[m] = (r.returncode == 0, (r.stdout + r.stderr)[-500:])
+    return res
 
 
 def lean_sources():
